@@ -1,6 +1,7 @@
 package wmptsim
 
 import (
+	"bytes"
 	"encoding/hex"
 	"fmt"
 
@@ -295,6 +296,12 @@ func Gen(prop string, r *sim.Rand, tier string) sim.Script {
 			var v []byte
 			if r.Chance(1, 2) {
 				v = append(genVal(r, n, false), fh...)
+				if r.Chance(1, 2) {
+					// lengths that make the disguised short node's key exactly 256 or 512 bytes long (8 + len - 32)
+					pad := bytes.Repeat([]byte{'k'}, []int{248, 504}[r.Intn(2)])
+					pad[0] = byte('a' + r.Intn(20))
+					v = append(pad, fh...)
+				}
 				if len(v) == 512 {
 					v = append([]byte{'q'}, v...)
 				}
